@@ -16,6 +16,13 @@ HARNESSES = [
       'real dispatch_group_notify_f (+_dispatch_group_notify, MPSC push): first and later notify, all states'),
 ] + [S('S_wake_%d' % n, 'H_WAKE -DNNOTIFY=%d' % n, ['_dispatch_group_wake', '_dispatch_lane_push'], ['_dispatch_lane_push', '_dispatch_wake_by_address', '_os_object_release_internal', '_os_object_release_internal_n', '_dispatch_wait_for_enqueuer', '_dispatch_queue_override_qos', '__errno_location'],
       'real _dispatch_group_wake on a list of %d notification(s): each submitted once, in order; waiters woken iff HAS_WAITERS' % n, icall=['_dispatch_lane_push']) for n in (1, 2, 3)]
+QSTUBS = BASE + ['__errno_location', '_dispatch_continuation_alloc_cacheonly', '_dispatch_continuation_alloc_from_heap', '_dispatch_wait_for_enqueuer', '_os_object_release_internal', '_os_object_release_internal_n',
+          '_dispatch_continuation_async', '_dispatch_wait_on_address', '_dispatch_wake_by_address']
+def Q(name, defs, note, **kw):
+    return H(name, 'h_group_q.c', ['dispatch_group_leave', 'dispatch_group_enter', 'dispatch_group_notify_f', 'dispatch_group_wait', '__dispatch_tsd'], stubs=QSTUBS,
+             blocking=['_dispatch_wait_on_address', '_dispatch_wait_for_enqueuer'], visible=['_dispatch_continuation_async', '_dispatch_wake_by_address'], seq=True, nt=4, heap=512, pagewords=64,
+             defines=['-DQ_MAXB=8'] + defs, unwind=6, probes=PR, witness_any=True, note=note, **kw)
+# tier Q on the group (h_group_q.c: final leave x re-enter+notify x wait) is NOT registered: 25 resumable functions / 51 yield points -> cbmc runs out of 24 GB during symbolic execution (measured twice); see DESIGN
 ASSUMPTIONS = ['tier S: one call of one real group function from an arbitrary 64-bit dg_state (restricted only by the documented caller contract, e.g. leave needs count >= 1); interference: at most 2 arbitrary replacements of the word by other threads at atomic access points',
                'kernel wait (_dispatch_wait_on_address / futex) is a stub returning 0, EINTR or ETIMEDOUT with the generation optionally advanced; at most 3 sleeps per wait',
                'queue push, retain/release and wake-by-address are counting stubs']
